@@ -205,4 +205,80 @@ Section Call.
         cbn. destruct cs; [contradiction|left; reflexivity]. }
       rewrite El in Hin. destruct Hin.
   Qed.
+
+  (* ---- one call with callbacks: parameters annotated T receive `args`, parameters annotated
+     Callable[[T], ..] receive callbacks whose parameter types are `cbs`; T is unbounded or has a
+     declared bound.  Guard: the callback parameter types and the declared bound are pairwise
+     comparable and none is Any.  Then an accepted solution accepts every argument, is accepted
+     by every callback's parameter type and by the declared bound. ---- *)
+  Definition declared_upper (d : @decl V) : list V :=
+    match d with Bounded b => [b] | _ => [] end.
+
+  Definition callbacks_solution (d : @decl V) (args cbs : list V) : result V :=
+    mresolve O limit (flat_map (arg_bounds d) args ++ flat_map (callback_bounds d) cbs).
+
+  Lemma uppers_ok_incl : forall us us', (forall u, In u us' -> In u us) ->
+    uppers_ok O us = true -> uppers_ok O us' = true.
+  Proof.
+    intros us us' Hi H. unfold uppers_ok in *. apply andb_prop in H. destruct H as [H1 H2].
+    rewrite forallb_forall in H1, H2. apply andb_true_intro. split; apply forallb_forall.
+    - intros u Hu. apply H1, Hi, Hu.
+    - intros u Hu. apply forallb_forall. intros u' Hu'. specialize (H2 u (Hi u Hu)).
+      rewrite forallb_forall in H2. apply H2, Hi, Hu'.
+  Qed.
+
+  Theorem callbacks_solution_sound_partial : forall d args cbs v,
+    (forall cs, d <> Constrained cs) ->
+    uppers_ok O (declared_upper d ++ cbs) = true ->
+    callbacks_solution d args cbs = Sol v ->
+    (forall a, In a args -> acc O v a = true) /\
+    (forall p, In p cbs -> acc O p v = true) /\
+    (forall b, d = Bounded b -> acc O b v = true).
+  Proof.
+    intros d args cbs v Hnc Hok Hs. unfold callbacks_solution, mresolve in Hs.
+    set (bs := flat_map (arg_bounds d) args ++ flat_map (callback_bounds d) cbs) in *.
+    fold (dd bs) in Hs.
+    assert (Hinh : forall b0, In b0 (inherent d) -> exists b, d = Bounded b /\ b0 = UpperBound b).
+    { intros b0 Hb. destruct d as [|b|cs]; cbn in Hb.
+      - destruct Hb.
+      - destruct Hb as [<-|[]]. eauto.
+      - exfalso. apply (Hnc cs). reflexivity. }
+    assert (Hin : forall b0, In b0 bs ->
+              (exists a, In a args /\ b0 = LowerBound a) \/ (exists p, In p cbs /\ b0 = UpperBound p) \/
+              (exists b, d = Bounded b /\ b0 = UpperBound b)).
+    { intros b0 Hb. unfold bs in Hb. apply in_app_or in Hb. destruct Hb as [Hb|Hb].
+      - apply in_flat_map in Hb. destruct Hb as [a [Ha Hb]]. destruct Hb as [<-|Hb]; [left; eauto|].
+        right. right. apply Hinh, Hb.
+      - apply in_flat_map in Hb. destruct Hb as [p [Hp Hb]]. destruct Hb as [<-|Hb]; [right; left; eauto|].
+        right. right. apply Hinh, Hb. }
+    assert (Hup : forall u, In u (uppers (dd bs)) -> In u (declared_upper d ++ cbs)).
+    { intros u Hu. apply (proj2 (in_uppers' _ _)) in Hu. apply (proj1 (dd_in _ _)) in Hu.
+      destruct (Hin _ Hu) as [[a [_ He]]|[[p [Hp He]]|[b [Hd He]]]]; [discriminate| |].
+      - injection He as ->. apply in_or_app. right. exact Hp.
+      - injection He as ->. subst d. apply in_or_app. left. left. reflexivity. }
+    assert (Hok' : uppers_ok O (uppers (dd bs)) = true) by (eapply uppers_ok_incl; eassumption).
+    assert (Hno : oneofs (dd bs) = []).
+    { destruct (oneofs (dd bs)) as [|cs r] eqn:Eo; [reflexivity|exfalso].
+      assert (Hc : In cs (oneofs (dd bs))) by (rewrite Eo; left; reflexivity).
+      apply (proj2 (in_oneofs' _ _)) in Hc. apply (proj1 (dd_in _ _)) in Hc.
+      destruct (Hin _ Hc) as [[a [_ He]]|[[p [_ He]]|[b [_ He]]]]; discriminate. }
+    repeat split.
+    - intros a Ha. eapply msolve_lower; [exact L|exact Hs|].
+      apply (proj1 (in_lowers' _ _)). apply (proj2 (dd_in _ _)). unfold bs. apply in_or_app. left.
+      apply in_flat_map. exists a. split; [exact Ha|left; reflexivity].
+    - intros p Hp. eapply msolve_upper_partial; [exact L|exact Hs|exact Hok'|exact Hno|].
+      apply (proj1 (in_uppers' _ _)). apply (proj2 (dd_in _ _)). unfold bs. apply in_or_app. right.
+      apply in_flat_map. exists p. split; [exact Hp|left; reflexivity].
+    - intros b ->. destruct args as [|a0 args'], cbs as [|p0 cbs'].
+      + cbn in Hs. injection Hs as <-. apply (acc_any_r O L), (any_generic_is_any O L).
+      + eapply msolve_upper_partial; [exact L|exact Hs|exact Hok'|exact Hno|].
+        apply (proj1 (in_uppers' _ _)). apply (proj2 (dd_in _ _)). unfold bs. apply in_or_app. right.
+        apply in_flat_map. exists p0. split; [left; reflexivity|right; left; reflexivity].
+      + eapply msolve_upper_partial; [exact L|exact Hs|exact Hok'|exact Hno|].
+        apply (proj1 (in_uppers' _ _)). apply (proj2 (dd_in _ _)). unfold bs. apply in_or_app. left.
+        apply in_flat_map. exists a0. split; [left; reflexivity|right; left; reflexivity].
+      + eapply msolve_upper_partial; [exact L|exact Hs|exact Hok'|exact Hno|].
+        apply (proj1 (in_uppers' _ _)). apply (proj2 (dd_in _ _)). unfold bs. apply in_or_app. left.
+        apply in_flat_map. exists a0. split; [left; reflexivity|right; left; reflexivity].
+  Qed.
 End Call.
